@@ -77,6 +77,20 @@ def run_id_range_edge(tier, v):
                 v.violation("second-edit-changes-bytes:id-range-edge", info, replay_files=replay)
             if l2 != l1:
                 v.violation("second-edit-changes-lock:id-range-edge", dict(info, lock1=l1, lock2=l2), replay_files=replay)
+            # read-back: the finder must return every ID that was just written
+            for rel, txt in files.items():
+                if not rel.startswith("src/"):
+                    continue
+                got = s1.get(rel[4:], b"")
+                strip = cli.token_strip(txt.encode(), got)
+                if not strip:
+                    continue
+                res = vh.eval_cases([(gen.cfg_index(0, structured), got.decode("utf-8"))])[0]
+                refs = [e[3] for e in res[1]] if res[0] == "ok" else []
+                for _, tok in strip:
+                    if cli.token_id(tok) not in refs:
+                        v.violation("inserted-id-not-read-back:id-range-edge", dict(info, token=tok.decode(), read_back=refs, after=got.decode("utf-8", "replace")[:400]),
+                                    replay_files=replay)
         shutil.rmtree(proj, ignore_errors=True)
     v.subspace("ID-range edge: largest existing ID in {2^32-4 .. 2^32-1} x 0..3 unreferenced statements x lock {absent, exact, stale low, disabled} x style x "
                "{one file, two files}: edit, check, edit", n, exhaustive=True, distinct_first_run_outcomes=len(outcomes))
